@@ -31,11 +31,12 @@ from __future__ import annotations
 
 __all__ = ("ChainedDatastore",)
 
+import contextlib
 import itertools
 import logging
 import time
 import warnings
-from collections.abc import Callable, Collection, Iterable, Mapping, Sequence
+from collections.abc import Callable, Collection, Iterable, Iterator, Mapping, Sequence
 from typing import TYPE_CHECKING, Any
 
 from lsst.daf.butler import DatasetRef, DatasetTypeNotSupportedError, DimensionUniverse, FileDataset
@@ -44,6 +45,7 @@ from lsst.daf.butler.datastore import (
     Datastore,
     DatastoreConfig,
     DatastoreOpaqueTable,
+    DatastoreTransaction,
     DatastoreValidationError,
 )
 from lsst.daf.butler.datastore.constraints import Constraints
@@ -257,6 +259,18 @@ class ChainedDatastore(Datastore):
     @property
     def names(self) -> tuple[str, ...]:
         return tuple(self._names)
+
+    @contextlib.contextmanager
+    def transaction(self) -> Iterator[DatastoreTransaction]:
+        # Docstring inherited.
+        # The child datastores take part in the transaction: what a child has
+        # already written is undone when a later child, or anything else in
+        # the block, fails.
+        with contextlib.ExitStack() as stack:
+            for datastore in self.datastores:
+                stack.enter_context(datastore.transaction())
+            with super().transaction() as transaction:
+                yield transaction
 
     @property
     def roots(self) -> dict[str, ResourcePath | None]:
